@@ -577,6 +577,28 @@ impl Exec for VolExec {
                         Err(e) => verr(&e),
                     }
                 }
+                ("write_to_cursor", Cur::Mem(Src::Slice(s))) => {
+                    let mut room = vec![0u8; g("room")];
+                    let mut sink = std::io::Cursor::new(&mut room[..]);
+                    match s.write_volatile_to(g("addr"), &mut sink, g("count")) {
+                        Ok(n) => {
+                            let pos = sink.position() as usize;
+                            json!({"k": "ok", "n": n, "data": room[..pos]})
+                        }
+                        Err(e) => verr(&e),
+                    }
+                }
+                ("write_all_to_cursor", Cur::Mem(Src::Slice(s))) => {
+                    let mut room = vec![0u8; g("room")];
+                    let mut sink = std::io::Cursor::new(&mut room[..]);
+                    match s.write_all_volatile_to(g("addr"), &mut sink, g("count")) {
+                        Ok(()) => {
+                            let pos = sink.position() as usize;
+                            json!({"k": "ok", "n": pos, "data": room[..pos]})
+                        }
+                        Err(e) => verr(&e),
+                    }
+                }
                 ("read_from_bad_fd", Cur::Mem(Src::Slice(s))) => {
                     // a descriptor that cannot be read from: every read fails with EBADF
                     let mut f = std::fs::OpenOptions::new().write(true).open("/dev/null").expect("harness: /dev/null");
